@@ -21,7 +21,8 @@ theorem c03_second_close_is_noop (f : Nat) (w : World) (sid : Nat) (reason : Str
 /-- `Send` after close (or while closing) is silently discarded -/
 theorem c03_send_after_close_discarded (w : World) (sid : Nat) (p : Pkt) (cb : Option Nat)
     (h : (w.sock sid).rs = .closing ∨ (w.sock sid).rs = .closed) : sendPacket w sid p cb = w := by
-  unfold sendPacket; simp [h]
+  unfold sendPacket
+  rcases h with h | h <;> simp [h]
 
 /-- a packet arriving for a session that is not open is ignored: no packet,
     message or heartbeat event, no timer change -/
